@@ -742,6 +742,23 @@ def sweep_c12_third_party_close(cfgs: list[str]):  # noqa: ANN201
                                "agents": [{"at": at, "place": place, "close_actor": 0}],
                                "spare_r": True, "spare_s": True}  # fmt: skip
 
+            # every send handle is closed under the blocked sender(s) by somebody else: what
+            # they hold is still pending and has to reach the next receive, not EndOfStream
+            for nsend in (1, 2):
+                for at in range(1, 5):
+                    for rd in range(at, at + 4):
+                        for place in ("before", "after"):
+                            for nowait_r in (False, True):
+                                actors = [{"role": "S", "mode": "scope", "ops": [["send", 0, False]]}
+                                          for _ in range(nsend)]  # fmt: skip
+                                actors.append({"role": "R", "mode": "scope",
+                                               "ops": [["recv", rd, nowait_r], ["recv", 0, nowait_r],
+                                                       ["recv", 0, True]]})  # fmt: skip
+                                yield {"cfg": cfg, "cap": cap, "actors": actors,
+                                       "agents": [{"at": at + i, "place": place, "close_actor": i}
+                                                  for i in range(nsend)],
+                                       "spare_r": False, "spare_s": False}  # fmt: skip
+
 
 def gen_c13(rng: random.Random, cfgs: list[str]) -> dict:
     ns, nr = rng.randint(1, 3), rng.randint(1, 3)
